@@ -23,6 +23,9 @@ type vxRepClient struct {
 	// onList, when set, runs once inside the next listing call: what another
 	// goroutine does while that request is in flight
 	onList func()
+	// base: the one instant file ages are counted back from (two calls of time.Now
+	// differ natively, so equal ages would not be equal instants)
+	base time.Time
 }
 
 func (c *vxRepClient) Type() string { return "vx" }
@@ -73,10 +76,13 @@ func (c *vxRepClient) level(l int) []*ltx.FileInfo {
 
 func (c *vxRepClient) add(level, min, max int) {
 	age := vx.Range("age", 0, 20)
+	if c.base.IsZero() {
+		c.base = time.Now()
+	}
 	// CreatedAt = now - age - 0.5 s; retention thresholds below are 10 s, so ages
 	// 0..20 fall on both sides of every threshold
 	c.files = append(c.files, &ltx.FileInfo{Level: level, MinTXID: ltx.TXID(min), MaxTXID: ltx.TXID(max), Size: 4096,
-		CreatedAt: vx.TimeAgo(time.Now(), age)})
+		CreatedAt: vx.TimeAgo(c.base, age)})
 }
 
 // vxGenReplica enumerates replica layouts up to TXID n that satisfy R-REP.
@@ -192,12 +198,23 @@ func VxC07L0ByTime() {
 	// nothing (or, equivalently for this code, the newest replicated file), or a
 	// local file that has not been uploaded yet (DB.Sync runs more often than
 	// Replica.Sync).
+	newestLocal := n
 	if vx.Fault("localAhead") {
 		db.maxLTXFileInfos.m[0] = &ltx.FileInfo{Level: 0, MinTXID: ltx.TXID(n + 1), MaxTXID: ltx.TXID(n + 1)}
+		newestLocal = n + 1
 	}
+	// the local level-0 directory holds what the replica's level 0 holds (plus the
+	// file not uploaded yet); the pass also cleans up there, and the newest local
+	// file is where the next sync reads its position from
+	vx.FSMkdirAll(db.LTXLevelDir(0))
+	for _, f := range c.level(0) {
+		vx.FSWriteFile(db.LTXPath(0, f.MinTXID, f.MaxTXID), []byte("ltx"))
+	}
+	vx.FSWriteFile(db.LTXPath(0, ltx.TXID(newestLocal), ltx.TXID(newestLocal)), []byte("ltx"))
 	before := len(c.files)
 	err := db.EnforceL0RetentionByTime(context.Background())
 	vx.Assert("retention-no-error", err == nil)
+	vx.Assert("newest-local-file-survives-the-pass", vx.FSExists(db.LTXPath(0, ltx.TXID(newestLocal), ltx.TXID(newestLocal))))
 	vxCheckReplicaAfter(c, n, nsnap, before, db.RetentionEnabled)
 }
 
